@@ -8,6 +8,9 @@ from . import harness, sx
 
 
 def main(argv):
+    import warnings
+
+    warnings.simplefilter("ignore")  # NumPy/scikit-learn runtime warnings of the code under test are not verdicts
     if not argv:
         print(__doc__)
         return 2
